@@ -1414,26 +1414,28 @@ fn tar_names(tar: &[u8]) -> Vec<String> {
     out
 }
 
-fn run_rustdeps(case: &Sx) -> Sx {
+fn run_rustdeps_named(tname: &str, case: &Sx) -> Sx {
     use sccache::verif_hooks::mock_command::ProcessCommandCreator;
     let td = tempfile::Builder::new().prefix("vh-c13d-").tempdir_in("/dev/shm").unwrap();
     let ws = td.path().canonicalize().unwrap();
     std::fs::create_dir_all(ws.join("src")).unwrap();
     std::fs::create_dir_all(ws.join("target/debug/deps")).unwrap();
-    std::fs::write(ws.join("src/cdep.rs"), "pub fn c() -> i32 { 1 }\n").unwrap();
+    std::fs::write(ws.join(format!("src/{}.rs", tname)), "pub fn c() -> i32 { 1 }\n").unwrap();
+    let tsrc = format!("src/{}.rs", tname);
+    let textern = format!("{t}=target/debug/deps/lib{t}-1111.rlib", t = tname);
     std::fs::write(ws.join("src/top.rs"), "pub fn t() -> i32 { bdep::b() + ddep::d() }\n").unwrap();
-    if !rustc_run(&ws, &["--crate-name", "cdep", "--edition=2021", "--crate-type", "lib", "-C", "extra-filename=-1111", "--out-dir", "target/debug/deps", "src/cdep.rs"]) {
+    if !rustc_run(&ws, &["--crate-name", tname, "--edition=2021", "--crate-type", "lib", "-C", "extra-filename=-1111", "--out-dir", "target/debug/deps", &tsrc]) {
         return Sx::sym("no_rustc");
     }
     let build = |name: &str, tag: &str, f: &str, uses: bool| -> bool {
         std::fs::write(
             ws.join(format!("src/{}.rs", name)),
-            if uses { format!("pub fn {}() -> i32 {{ cdep::c() + 1 }}\n", f) } else { format!("pub fn {}() -> i32 {{ 1 }}\n", f) },
+            if uses { format!("pub fn {}() -> i32 {{ {}::c() + 1 }}\n", f, tname) } else { format!("pub fn {}() -> i32 {{ 1 }}\n", f) },
         )
         .unwrap();
         let extra = format!("extra-filename=-{}", tag);
         let src = format!("src/{}.rs", name);
-        rustc_run(&ws, &["--crate-name", name, "--edition=2021", "--crate-type", "lib", "-C", &extra, "--out-dir", "target/debug/deps", "-L", "dependency=target/debug/deps", "--extern", "cdep=target/debug/deps/libcdep-1111.rlib", "-A", "unused-crate-dependencies", &src])
+        rustc_run(&ws, &["--crate-name", name, "--edition=2021", "--crate-type", "lib", "-C", &extra, "--out-dir", "target/debug/deps", "-L", "dependency=target/debug/deps", "--extern", &textern, "-A", "unused-crate-dependencies", &src])
     };
     if !build("bdep", "2222", "b", false) || !build("ddep", "4444", "d", false) {
         return Sx::sym("no_rustc");
@@ -1518,6 +1520,34 @@ fn run_rustdeps(case: &Sx) -> Sx {
         }
     }
     Sx::L(out)
+}
+
+fn run_rustdeps(case: &Sx) -> Sx {
+    run_rustdeps_named("cdep", case)
+}
+
+// leg rustnames: ( NAME ) - the transitive dependency is called NAME (e.g. libutil, lib_sys): bdep is rebuilt using it,
+// top's inputs are packaged; obs: ( HAS_BDEP HAS_DDEP HAS_NAMED ) for lib<crate>-<hash>.rlib in the inputs archive
+fn run_rustnames(case: &Sx) -> Sx {
+    let name = case.arg(0).str();
+    let ops = Sx::L(vec![
+        Sx::L(vec![Sx::sym("build"), Sx::sym("bdep"), Sx::N(1)]),
+        Sx::sym("package"),
+    ]);
+    let r = run_rustdeps_named(&name, &ops);
+    if !matches!(r, Sx::L(_)) {
+        return r;
+    }
+    let pk = r.arg(1);
+    if pk.list().first().map(|x| x.is_sym("err")).unwrap_or(false) || !matches!(pk, Sx::L(_)) {
+        return Sx::L(vec![Sx::sym("err"), pk.clone()]);
+    }
+    let has = |n: String| Sx::bool(pk.list().iter().any(|x| x.bytes() == n.as_bytes()));
+    Sx::L(vec![
+        has("libbdep-2222.rlib".into()),
+        has("libddep-4444.rlib".into()),
+        has(format!("lib{}-1111.rlib", name)),
+    ])
 }
 
 // ------------------------------------------------------------------ leg aliases
@@ -1970,6 +2000,7 @@ fn main() {
         "aliases" => vh::run_lines(run_aliases),
         "routes" => vh::run_lines(run_routes),
         "rustdeps" => vh::run_lines(run_rustdeps),
+        "rustnames" => vh::run_lines(run_rustnames),
         "args" => vh::run_lines(run_args),
         _ => {
             eprintln!("usage: c13 status|fallback|request|toolchain|args");
